@@ -878,7 +878,46 @@ func ruleOp2Table(p *Prog, r *Result) {
 					}
 				})
 			}
-			r.add(foldBad == "", "fold-valid", p.Pos(fn.Pos()), firstNonEmpty(map[bool]string{true: "the word is case-folded by " + foldBad + " without a test that it is valid UTF-8: an invalid byte becomes U+FFFD"}[foldBad != ""], "a word is case-folded by the strings package only when it is valid UTF-8"))
+			// ... and where it folds rune by rune itself, a byte is copied as it is only when it really is an invalid
+			// byte: the decoder answers U+FFFD with width 1 for those, and U+FFFD with width 3 for a genuine
+			// replacement character in the text
+			for f := range p.Reach([]*ssa.Function{bt}, nil) {
+				if !p.InPkg(f) {
+					continue
+				}
+				folds := false
+				allInstrs(f, func(in ssa.Instruction) {
+					if c, ok := in.(*ssa.Call); ok && p.calleeName(&c.Call) == "unicode.ToLower" {
+						folds = true
+					}
+				})
+				if !folds {
+					continue
+				}
+				allInstrs(f, func(in ssa.Instruction) {
+					c, ok := in.(*ssa.Call)
+					if !ok || p.calleeName(&c.Call) != "(*strings.Builder).WriteByte" {
+						return
+					}
+					width1 := false
+					for _, a := range dominatingAtoms(in.Block()) {
+						if a.Op != token.EQL {
+							continue
+						}
+						if k, ok := constInt(a.Y); ok && k == 1 {
+							if ex, ok := a.X.(*ssa.Extract); ok && ex.Index == 1 {
+								if dc, ok := ex.Tuple.(*ssa.Call); ok && strings.HasPrefix(p.calleeName(&dc.Call), "unicode/utf8.DecodeRune") {
+									width1 = true
+								}
+							}
+						}
+					}
+					if !width1 && foldBad == "" {
+						foldBad = "a byte copy at " + p.InstrPos(in) + " that is not behind `decoded width == 1` (a genuine U+FFFD would lose two of its three bytes)"
+					}
+				})
+			}
+			r.add(foldBad == "", "fold-valid", p.Pos(fn.Pos()), firstNonEmpty(map[bool]string{true: "the word is case-folded by " + foldBad + " (an invalid byte must stay as it is, and only an invalid byte)"}[foldBad != ""], "a word is case-folded by the strings package only when it is valid UTF-8"))
 			r.add(len(trims) == 0 && len(missing) == 0, "blanks", p.Pos(fn.Pos()), fmt.Sprintf("the six ASCII blanks separate words in the scanner (not separators: %v) and the word classifier does not trim the word it is given (trimming calls: %v): a character removed from a word's text leaves the word's recorded offset on that character", missing, trims))
 		}
 		var cs []int64
